@@ -5,5 +5,6 @@ Rec == ndJsonDeserialize(IOEnv.TRACE)
 OSched(t, k, x) == AESSched(t, k, x)
 OEnc(ks, b) == AESEnc(ks, b)
 ODec(ks, b) == AESDec(ks, b)
+ExtraKinds == {}
 INSTANCE ConfBase
 =============================================================================
